@@ -619,6 +619,9 @@ func (w *world) pickByz() uint64 {
 func (w *world) byzBlock(h uint64) *aBlock {
 	w.byzBlocks++
 	b := &aBlock{Height: h, Id: 2000000 + w.byzBlocks}
+	if w.r.Intn(7) == 0 { // a block of another height, proposed for this one
+		b.Height = h + 1 + uint64(w.r.Intn(6))
+	}
 	if w.r.Intn(3) == 0 {
 		b.Bad = []uint64{w.honest[w.r.Intn(len(w.honest))].id}
 	}
@@ -1952,6 +1955,60 @@ func (w *world) splitSyncScript() {
 	n3.apply("ESyncWorker "+b3.coq(), "worker applies the sync to block of height 3", evInfo{kind: "sync"}, func() { n3.vn.SyncWorkerHalf(blk, w.codec.syncProof(3)) })
 	if uint64(n3.vn.State().Height()) != 4 {
 		w.rep.finding("C14", "sync-no-effect", fmt.Sprintf("node 3 is at height %d after the accepted sync to block 3 was applied", uint64(n3.vn.State().Height())), w.traceInput())
+	}
+}
+
+// wrongHeightProposalScript (member 1 Byzantine, leader of view 1): the correct members vote for view 1 without proofs;
+// the leader answers with a NEW_VIEW that is valid in every part and proposes a block of height 7 (under that block's
+// true hash) for height 1. The consumer is asked to validate a proposal FOR THE HEIGHT BEING DECIDED and rejects a
+// block of another height: nobody PREPAREs, nothing is committed (C04).
+func (w *world) wrongHeightProposalScript() {
+	for _, n := range w.honest {
+		w.sync(n, nil)
+	}
+	w.pool = nil
+	for _, id := range []uint64{0, 2, 3} {
+		w.election(w.byId[id], 1, 0)
+	}
+	var votes []aVote
+	seen := map[uint64]bool{}
+	for _, m := range w.history {
+		if m.Kind == "VC" && m.Vote.Height == 1 && m.Vote.View == 1 && !seen[m.Vote.Snd.Id] && m.Vote.Snd.Ok {
+			votes = append(votes, cloneVote(*m.Vote))
+			seen[m.Vote.Snd.Id] = true
+		}
+	}
+	if len(votes) < 3 {
+		w.rep.count("world:directed-wrong-height-proposal-setup-failed")
+		return
+	}
+	w.pool = nil
+	b := &aBlock{Height: 7, Id: 2999991}
+	nv := &aMsg{Kind: "NV", NVType: 4, NVInst: worldInst, NVHeight: 1, NVView: 1, Votes: votes, Snd: aSig{1, true},
+		Ref: aRef{1, worldInst, 1, 1, b.Id}, PPSnd: aSig{1, true}, Block: b}
+	for _, id := range []uint64{0, 2, 3} {
+		w.inject(w.byId[id], nv.clone(), "byz-NV-block-of-another-height")
+	}
+	for k := 0; k < 60 && len(w.pool) > 0; k++ {
+		p := w.pool[0]
+		w.pool = w.pool[1:]
+		if w.byz[p.to] {
+			continue
+		}
+		w.deliverG(w.byId[p.to], p.msg, p.raw, p.genuine)
+	}
+	// the Byzantine leader supports its own proposal
+	for _, id := range []uint64{0, 2, 3} {
+		w.inject(w.byId[id], &aMsg{Kind: "P", Ref: aRef{2, worldInst, 1, 1, b.Id}, Snd: aSig{1, true}}, "byz-P")
+		w.inject(w.byId[id], &aMsg{Kind: "C", Ref: aRef{3, worldInst, 1, 1, b.Id}, Snd: aSig{1, true}, ShareOk: true}, "byz-C")
+	}
+	for k := 0; k < 60 && len(w.pool) > 0; k++ {
+		p := w.pool[0]
+		w.pool = w.pool[1:]
+		if w.byz[p.to] {
+			continue
+		}
+		w.deliverG(w.byId[p.to], p.msg, p.raw, p.genuine)
 	}
 }
 
